@@ -2,7 +2,7 @@
    schedulers/components did (global update trace, tick log, master tick real times).
    Independent of the simulation function of Model/Sim.v: only the configuration, the
    flattening defined here and the device table are used. *)
-From TV Require Import Base Model.Wiring Model.Ticker Model.Component Model.Sim Model.SimTime Model.Inline Model.NSim Model.Interrupts Model.NNSim Oracle.SimCheck.
+From TV Require Import Base Model.Wiring Model.Ticker Model.Component Model.Sim Model.SimTime Model.Inline Model.NSim Model.Interrupts Model.NNSim Model.HSim Oracle.SimCheck.
 Open Scope Z_scope.
 
 (* ---------- flattening a nested configuration (C09, C03) *)
@@ -437,7 +437,40 @@ Definition check_nnsim (c : sim_case) : list Z :=
     end
   else [].
 
+(* 25: on a nested simulation at speed 1 the interleaving scheduler (Model/HSim.v: all the messages of all the schedulers
+   of the nesting in flight at once, a strategy picking the next one -- rotating through them / always the newest) and
+   Model/Sim.v give some device different observations (Proofs/MsgTreeP.v proves they cannot) *)
+Definition hsim_obs (c : sim_case) (pick : hstrategy) : option (list obs) :=
+  match hxsim_timed_from_start (sc_cfg c) (table_dev (sc_devs c)) pick 4000 8 4000 (sc_initial c)
+          (map (fun st : stimulus => let '(r, d, lvc, path) := st in (r + sc_initial c, d, lvc, path)) (sc_stim c))
+          (sc_initial c + sc_end c) with
+  | Some (_, ob) => Some ob
+  | None => None
+  end.
+Definition check_hsim (c : sim_case) : list Z :=
+  if nnsim_applies c then
+    match hsim_obs c (hpick_rot 1), hsim_obs c hpick_last with
+    | Some o1, Some o2 =>
+        if forallb (fun d : comp =>
+                      seq_eqb (obs_of d o1) (obs_of d (model_obs c)) && seq_eqb (obs_of d o2) (obs_of d (model_obs c)))
+                   (keys (sc_devs c))
+           && Nat.eqb (length o1) (length (model_obs c)) && Nat.eqb (length o2) (length (model_obs c))
+        then [] else [25]
+    | _, _ => [25]
+    end
+  else [].
+(* the interleaving really interleaves: the global order of updates differs from that of the atomic schedules *)
+Definition hsim_interleaves (c : sim_case) : list Z :=
+  if nnsim_applies c then
+    match hsim_obs c (hpick_rot 1), nnsim_obs c pick_first, nnsim_obs c pick_last with
+    | Some o1, Some o2, Some o3 =>
+        if negb (list_eqb Pos.eqb (map (fun o : obs => fst (fst o)) o1) (map (fun o : obs => fst (fst o)) o2))
+           && negb (list_eqb Pos.eqb (map (fun o : obs => fst (fst o)) o1) (map (fun o : obs => fst (fst o)) o3)) then [1] else []
+    | _, _, _ => []
+    end
+  else [].
+
 Definition check_sched (g : sched_case) : list Z :=
   let '(r, ds) := g in
   check_sim_all r ++ flat_map check_sim_obs ds ++
-  (if forallb (fun d => same_devices r d && same_devices d r) ds then [] else [22]) ++ check_nsim r ++ check_nnsim r.
+  (if forallb (fun d => same_devices r d && same_devices d r) ds then [] else [22]) ++ check_nsim r ++ check_nnsim r ++ check_hsim r.
